@@ -7,13 +7,18 @@ PROP = dict(
     title="Block-by-block CAR traversal delivers each object once with its true offset",
     coq_target="Properties/C15.vo",
     harness=[dict(name="accum", pkg="./accum", run="^TestVerif_C15$",
-                  files={"accum/zz_verif_c15_test.go": "harness/accum/c15_test.go"},
+                  files={"accum/zz_verif_c15_test.go": "harness/accum/c15_test.go",
+                         "accum/zz_verif_c15_consumers_test.go": "harness/accum/c15_consumers_test.go"},
                   timeout=900, timeout_thorough=2400, race=True,
                   # thorough runs under -race: reports go to the scratch directory, the harness turns them into a
                   # `data-race` failure (halt_on_error=0 lets the run finish and write its report first)
-                  env={"GORACE": "log_path=%s halt_on_error=0" % os.path.join(_VERIF, ".work", "C15", "race_report")})],
+                  # VERIF_C15_RETAINED: objects looked at again AFTER their callback returned / after Run returned (neither
+                  # consumer keeps them that long, the property does not speak about it): "observe" = counted only,
+                  # "enforce" = failure `retained-object-changed-after-return`
+                  env={"GORACE": "log_path=%s halt_on_error=0" % os.path.join(_VERIF, ".work", "C15", "race_report"),
+                       "VERIF_C15_RETAINED": "observe"})],
     technique="Coq proof over all schedules of a producer / bounded FIFO / single-consumer transition system for accum.ObjectAccumulator over the CAR layout of Car.v, plus differential runs of the real accumulator on generated CARs checked by the model and by a ground-truth oracle",
-    level_text="Theorems (Coq, no axioms) for every CAR (any header, any objects), flush kind, ignore set, skip count, queue capacity and EVERY schedule of producer steps, flusher receives and callback completions: when Run returns the callback sequence equals groups_spec (kept objects cut after every block: each block once, in file order, with the kept objects since the previous block; trailing kept objects as a final parentless group), at every moment the delivered groups are a prefix of it, every delivered object's (offset, section length) reads back exactly its section from the file bytes (skipped and ignored sections counted), the result is schedule independent, and for any capacity >= 1 (the generated real capacity included) no state is stuck, schedules are finite and Run can always complete. Tie: the real accumulator is run on generated CARv1 files (0..N children, more children than the 5000 preallocation, more groups than the queue holds with the producer blocked on the full queue, trailing objects, all 128 ignore sets, every flush kind, 1/2/3-byte section varints, several header lengths and CID shapes) with instantaneous/slow/random/gated callbacks under GOMAXPROCS 1/4/16 (-race in the thorough tier); every observed callback sequence must equal the ground truth, every offset must read back from the file, contents are compared late inside slow callbacks, and each distinct observation is re-checked by the Coq checker (spec + model under two opposite schedulers).",
+    level_text="Theorems (Coq, no axioms) for every CAR (any header, any objects), flush kind, ignore set, skip count, queue capacity and EVERY schedule of producer steps, flusher receives and callback completions: when Run returns the callback sequence equals groups_spec (kept objects cut after every block: each block once, in file order, with the kept objects since the previous block; trailing kept objects as a final parentless group), at every moment the delivered groups are a prefix of it, every delivered object's (offset, section length) reads back exactly its section from the file bytes (skipped and ignored sections counted), the result is schedule independent, and for any capacity >= 1 (the generated real capacity included) no state is stuck, schedules are finite and Run can always complete. Tie: the real accumulator is run on generated CARv1 files (0..N children, more children than the 5000 preallocation, more groups than the queue holds with the producer blocked on the full queue, trailing objects, all 128 ignore sets, every flush kind, 1/2/3-byte section varints, several header lengths and CID shapes) plus CARs of several MiB with payloads of 0.3-5.5 KiB (thorough: tens of MiB), with fewer and with more groups than the queue holds) with instantaneous/slow/random callbacks and two forced schedules (gated: the first callback is held until the reader has queued everything the queue can take; lockstep: the reader is fed the file group by group by the consumer) under GOMAXPROCS 1/4/16 (-race in the thorough tier), consumed both read-only (as the address indexer) and splitter-style (the callback appends the parent and extra elements to the children slice, as cmd-car-split.go does); every observed callback sequence must equal the ground truth, every offset must read back from the file, every delivered payload must equal the bytes stored in the file at the object's position when it is read late (after the delay / after the reader is done), the slice a consumer built by appending must not change under it and nothing it appended may show up in a later group, and each distinct observation is re-checked by the Coq checker (spec + model under two opposite schedulers).",
     level_note="Trusted: Coq kernel; the hand-written transition system (Run loop, sendToFlusher on a buffered FIFO channel, single flusher, WaitGroup drain before close) as a model of accum/block.go, validated by the differential runs; carreader/go-cid parsing of sections (exercised, not modelled beyond section = uvarint(len) ++ cid ++ data); real goroutine timing is sampled, not enumerated. Scope: well-formed CARv1, payloads >= 2 bytes, sections <= go-car MaxAllowedSectionSize, callback returns nil, context not cancelled.",
     design_ref="5 (C15)",
     trusted=["model C15_Accum.v of accum/block.go (hand-written; tied by differential runs on generated CARs)",
